@@ -136,6 +136,34 @@ Example ex_round2 :
   collapse 4 [(4, 4, 0, 4); (5, 3, 0, 3)] = [(20, 12, 0, 12)].
 Proof. vm_compute. repeat split; reflexivity. Qed.
 
+(* ---- round 3: the single-file writer between datasets ---------------------------------------------------- *)
+(** For every sequence of DFSDsetdimscale (with a scale or with NULL), DFSDsetdims / DFSDclear with new dimensions,
+    DFSDsetNT with a new type and DFSDadddata: the scales record the NDG of each dataset refers to (a new one, or
+    the one shared with the previous datasets) is read back, by hdf_read_ndgs' walk and by DFSDIgetndg, as exactly
+    the scales in effect for that dataset; a dataset without record has no scale.  Which setter marks the record as
+    modified / forgotten is read off dfsd.c (the four booleans below).
+    PARTIAL with respect to the writer session: strings, range and the extents take the same Ref.* route
+    (Ref.luf, Ref.maxmin, Ref.dims) and are not modelled; they rest on the dfsdseq correspondence runs. *)
+Theorem writer_session_scales_records_partial : forall ops, Forall wop_ok ops ->
+  Forall put_reads_back (wsc_run (mkWs [] (-1) []) ops).
+Proof. exact wsc_session_reads_back. Qed.
+Print Assumptions writer_session_scales_records_partial.
+
+Theorem scales_bookkeeping_as_modelled :
+  DFSDsetdimscale_null_marks_modified = true /\ DFSDsetdimscale_set_marks_modified = true /\
+  DFSDIclearNT_forgets_scales_record = true /\ DFSDIclear_forgets_scales_record = true.
+Proof. exact (conj eq_refl (conj eq_refl (conj eq_refl eq_refl))). Qed.
+Print Assumptions scales_bookkeeping_as_modelled.
+
+Example ex_round3 :
+  wsc_run (mkWs [] (-1) []) [WNewDims 2; WSet 1 (Some [7; 8]); WPut 2; WPut 3; WSet 1 None; WPut 4] =
+    [([None; Some [7; 8]], Some [0; 1; 7; 8]); ([None; Some [7; 8]], Some [0; 1; 7; 8]); ([None; None], None)] /\
+  Forall wop_ok [WNewDims 2; WSet 1 (Some [7; 8]); WPut 2; WPut 3; WSet 1 None; WPut 4] /\
+  map (fun d => ds_scales d)
+      (dfsd_session [OpDims [1; 2]; OpNT 20; OpScale 1 (Some [7; 8]); OpAdd [1; 2]; OpScale 1 None; OpAdd [3; 4]]) =
+    [[None; Some [7; 8]]; [None; None]].
+Proof. vm_compute. repeat split; try reflexivity; repeat constructor. Qed.
+
 (* ---- raster-image groups ---------------------------------------------------------------------------- *)
 Theorem dfr8_group_read_by_dfr8_and_df24 : forall m st', ri_ok m -> ri_ncomp m = 1 ->
   dfr8_view (dfr8_put m ++ st') (dfr8_members m) = Some (rview_of m (ri_il m)) /\
